@@ -5,12 +5,14 @@ package c01
 import (
 	"fmt"
 	"os"
+	"strings"
 	"sync/atomic"
 	"testing"
 
 	tally "github.com/uber-go/tally/v4"
 	"pgregory.net/rapid"
 
+	"verifharness/internal/model"
 	"verifharness/internal/pbt"
 	"verifharness/internal/rec"
 	"verifharness/internal/sched"
@@ -128,12 +130,24 @@ func run(c Case) (pbt.Outcome, error) {
 		cacct[i] = &acct{closable: sc != 0}
 	}
 	hists := make([]tally.Histogram, len(c.Hists))
-	hacct := make([]*acct, len(c.Hists))
+	// per (histogram, bucket) accounting: every second histogram uses {1}, a different specification
+	// with the same identity in the root's bucket cache as {0,1}; each must still be delivered under
+	// the bounds it was created with
+	hacct := make([]map[float64]*acct, len(c.Hists))
 	hname := make([]string, len(c.Hists))
+	hpairs := make([][]model.VPair, len(c.Hists))
 	for i, sc := range c.Hists {
 		hname[i] = name(sc, fmt.Sprintf("h%d", i))
-		hists[i] = scopes[sc].Histogram(fmt.Sprintf("h%d", i), tally.ValueBuckets{0, 1})
-		hacct[i] = &acct{closable: sc != 0}
+		spec := tally.ValueBuckets{0, 1}
+		if i%2 == 1 {
+			spec = tally.ValueBuckets{1}
+		}
+		hists[i] = scopes[sc].Histogram(fmt.Sprintf("h%d", i), spec)
+		hpairs[i] = model.ValuePairs([]float64(spec))
+		hacct[i] = map[float64]*acct{}
+		for _, p := range hpairs[i] {
+			hacct[i][p.Hi] = &acct{closable: sc != 0}
+		}
 	}
 	closedScope := make([]atomic.Bool, c.NSub+1)
 
@@ -147,7 +161,8 @@ func run(c Case) (pbt.Outcome, error) {
 		s.Go(fmt.Sprintf("inc%d", ti), func() {
 			for _, op := range ops {
 				if op.H {
-					a := hacct[op.C]
+					hi, _ := model.ValueBucketOf(hpairs[op.C], float64(op.D))
+					a := hacct[op.C][hi]
 					closedBefore := closedScope[c.Hists[op.C]].Load()
 					hists[op.C].RecordValue(float64(op.D))
 					a.sum.Add(1)
@@ -192,7 +207,9 @@ func run(c Case) (pbt.Outcome, error) {
 					}
 					for i, sc := range c.Hists {
 						if sc == op.S {
-							hacct[i].everClosed.Store(true)
+							for _, a := range hacct[i] {
+								a.everClosed.Store(true)
+							}
 						}
 					}
 					_ = scopes[op.S].(interface{ Close() error }).Close()
@@ -244,9 +261,10 @@ func run(c Case) (pbt.Outcome, error) {
 			if e.I == 0 {
 				errs.Addf("zero samples delivered: %v", e)
 			}
-			delivered[e.Name] += e.I
+			k := fmt.Sprintf("%s|<=%v", e.Name, e.Hi)
+			delivered[k] += e.I
 			if e.I < 0 {
-				negative[e.Name] = true
+				negative[k] = true
 			}
 		}
 	}
@@ -267,7 +285,16 @@ func run(c Case) (pbt.Outcome, error) {
 		judge(cname[i], cacct[i])
 	}
 	for i := range hists {
-		judge(hname[i], hacct[i])
+		for hi, a := range hacct[i] {
+			k := fmt.Sprintf("%s|<=%v", hname[i], hi)
+			judge(k, a)
+			delete(delivered, k)
+		}
+	}
+	for k := range delivered {
+		if strings.Contains(k, "|<=") {
+			errs.Addf("histogram samples delivered under %s: the histogram has no such bucket", k)
+		}
 	}
 
 	pre := sched.CountPreempted(res.Trace, "counter.value:")
